@@ -21,7 +21,7 @@ theorem runCbs_ignore (beh : Beh) (k : Sig) (doc : Doc) (fs : List Callable) (lo
     simp only [Generated.processCollectsWhenIgnoring, Bool.and_self, if_true]
     split
     · obtain ⟨h1, c, h2, h3⟩ := ih (log ++ [(f, k, doc)]) (exc ++ [f])
-      refine ⟨by rw [h1]; simp [callsOf], f :: c, by rw [h2]; simp, h3.cons₂ f⟩
+      refine ⟨by rw [h1]; simp [callsOf], f :: c, by rw [h2]; simp, h3.cons_cons f⟩
     · obtain ⟨h1, c, h2, h3⟩ := ih (log ++ [(f, k, doc)]) exc
       exact ⟨by rw [h1]; simp [callsOf], c, h2, h3.cons f⟩
 
